@@ -150,6 +150,7 @@ func c13ChildRun(c *Ctx) {
 	}
 	pr := datapath.NewPolicyRoute()
 	c13TeardownOthers(c)
+	c13RuleSyncRun(c)
 	nScen := c.Scale(6, 40)
 	for sc := 0; sc < nScen; sc++ {
 		var lines []Line
